@@ -204,15 +204,22 @@ Theorem C08_legacy_select_inclusive_refuted :
                   <> Some (range_lookup lo hi c).
 Proof. exact mv1_select_inclusive_refuted. Qed.
 
-(* stacked merge with inputs in either format, at any position (flags as pinned: STACK_V1_DOCS_SHIFTED,
-   STACK_NUM_VALUES_SKIPS_EMPTY): the merged multivalued index is the index of the concatenated column --
-   provided the source skips value-less documents of v1 inputs, or no v1 multivalued input has one (F82) *)
+(* stacked merge with inputs in either format, at any position, for the code as pinned from /repo (flags
+   STACK_V1_DOCS_SHIFTED and STACK_NUM_VALUES_SKIPS_EMPTY, proofs re-run on the regenerated constants): the merged
+   multivalued index is the index of the concatenated column, for ALL inputs *)
 Theorem C08_merge_stacked_legacy : forall lkcs, inputs_ok (map strip lkcs) ->
-  (stack_num_values_skips_empty = true \/ legacy_no_empty lkcs) ->
   let merged := merge_stacked (map snd lkcs) in
   si_stack_rows stack_v1_docs_shifted (map si_of lkcs) 0 = Some (mv_docs_with_values merged) /\
   si_start_offsets stack_num_values_skips_empty (map si_of lkcs) = mv_start_offsets 0 merged.
 Proof. exact stacked_with_legacy_inputs_pinned. Qed.
+
+(* the same for an explicit flag: without the filter it still holds when no v1 multivalued input has a value-less document *)
+Theorem C08_merge_stacked_legacy_unfiltered : forall skip_empty lkcs, inputs_ok (map strip lkcs) ->
+  (skip_empty = true \/ legacy_no_empty lkcs) ->
+  let merged := merge_stacked (map snd lkcs) in
+  si_stack_rows true (map si_of lkcs) 0 = Some (mv_docs_with_values merged) /\
+  si_start_offsets skip_empty (map si_of lkcs) = mv_start_offsets 0 merged.
+Proof. exact stacked_with_legacy_inputs_g. Qed.
 
 (* a v1 input contributes to the merge exactly what the same column contributes in the current format *)
 Theorem C08_legacy_input_as_current : forall c s,
@@ -220,7 +227,7 @@ Theorem C08_legacy_input_as_current : forall c s,
   v1_num_values true (mv1_start_offsets 0 c) = nz_counts c.
 Proof. exact v1_input_as_current. Qed.
 
-(* F82 (genuine defect): without skipping them, a value-less document of a v1 input duplicates a start offset *)
+(* F82 (fixed in /repo; regression witness): WITHOUT skipping them, a value-less document of a v1 input duplicates a start offset *)
 Theorem C08_merge_stacked_legacy_empty_rows_refuted :
   exists c, f82_class c = true /\
     si_start_offsets false [si_of (true, KMulti, c)] <> mv_start_offsets 0 (merge_stacked [c]).
@@ -380,6 +387,7 @@ Print Assumptions C08_optional_index_any_choice.
 Print Assumptions C08_legacy_select_batch.
 Print Assumptions C08_legacy_select_inclusive_refuted.
 Print Assumptions C08_merge_stacked_legacy.
+Print Assumptions C08_merge_stacked_legacy_unfiltered.
 Print Assumptions C08_legacy_input_as_current.
 Print Assumptions C08_merge_stacked_legacy_empty_rows_refuted.
 Print Assumptions C08_merge_stacked_legacy_unshifted_refuted.
